@@ -70,8 +70,8 @@ CLAIMED.update({
            "Partial: data-race freedom and concurrent = sequential are runtime facts, validated by a race-detector stress run (16 goroutines per shared policy), not proved.", "DESIGN.md section 5 C13", TIE_NOTE,
            "Coq proof of order-independence over the model + Go race detector stress run comparing concurrent with sequential results"),
  "C14": _c("proof", "Theorems C14_no_panic / C14_entry_points_no_panic: the only panicking operation of the token loop is unreachable for every token list and policy; every model function is total. "
-           "C14_escape_loop_progress / C14_escape_loop_ends / C14_fuel_irrelevant: the escape-decoding loop of removeUnicode strictly shortens the value on every iteration, so it terminates on every input and the fuel of the model is never exhausted. Partial: time is measured (adversarial size-parameterised families under a wall-clock budget, every call under a deadline), not proved.", "DESIGN.md section 5 C14", TIE_NOTE,
-           "Coq invariant proof (no panic) + adversarial complexity sweep and panic hunting on the implementation"),
+           "C14_escape_loop_progress / C14_escape_loop_ends / C14_fuel_irrelevant: the escape-decoding loop of removeUnicode strictly shortens the value on every iteration, so it terminates on every input and the fuel of the model is never exhausted. C14_recursive_check_quadratic / C14_recursive_check_correct: the memoised search of css recursiveCheck makes at most |sub-handlers|*n*n sub-handler calls for n components and returns true exactly when a cut into accepted groups exists (model tied to the code on result and exact call count through the hook css.VerifRecursiveCheck). Partial: time is measured (adversarial size-parameterised families under a wall-clock budget, every call under a deadline), not proved.", "DESIGN.md section 5 C14", TIE_NOTE,
+           "Coq invariant proof (no panic), termination and amortised cost proofs + differential correspondence + adversarial complexity sweep and panic hunting on the implementation"),
  "C17": _c("proof", "Theorems C17_rules_accumulate_partial / C17_rule_lists / C17_switch_last_setting / C17_skip_set_last_setting over Builder.apply. "
            "C17_order_of_rule_calls: two builder histories with the same switch-like calls in the same order and the same rule-adding calls (AllowAttrs/AllowStyles with any scope, AllowElements, AllowElementsMatching) in any order and interleaving build policies that sanitize every input to the same bytes (decomposition into primitive table updates, their commutation up to rule-set equality, and PolicyEquiv.peq_sanitize). C17_letter_case: calls whose names agree after strings.ToLower have exactly the same effect. Independence of policy values holds by construction in the functional model; that the code allocates per instance is checked by the policy-dump correspondence (every table after every call on interleaved policies) and the behaviour oracle.", "DESIGN.md section 5 C17", TIE_NOTE,
            "Coq proof over the builder model + policy-state correspondence after every builder call + behavioural equivalence oracle"),
